@@ -1480,7 +1480,7 @@ func main() {
 	}
 	probeN := 100000
 	if o.Tier == "thorough" {
-		probeN = 600000
+		probeN = 300000
 	}
 	if v := os.Getenv("C08_PROBE"); v != "" {
 		fmt.Sscan(v, &probeN)
